@@ -148,3 +148,125 @@ def simplifier_pairs(ctx, P, rule="SIMPLIFY-REWIND"):
     # only the sample bit may be touched
     okbits = all("TSK_NODE_IS_SAMPLE" in r for l, o, r, c in flagw) and all(o in ("&=", "|=") for l, o, r, c in flagw)
     ctx.ob(rule, "record|flag-bits", okbits, tu.loc(rec.node), "only the TSK_NODE_IS_SAMPLE bit is cleared/set (other flag bits survive)")
+
+
+def _array_aliases(fn, field):
+    """local names initialised / assigned from an expression ending in `field` (e.g. `list_next = self->tree.next_sample`)."""
+    out = {field}
+    for x in walk(fn.body):
+        if x.k == "VarDecl" and x.kids and x.name:
+            t = estr(x.kids[-1])
+            if re.search(r"(->|\.)%s$" % field, t):
+                out.add(x.name)
+        elif x.k == "BinaryOperator" and x.op == "=":
+            if re.search(r"(->|\.)%s$" % field, estr(x.kids[1])):
+                out.add(estr(x.kids[0]))
+    return out
+
+
+def sample_walks(ctx, P, rule="SAMPLE-WALK", tus=("genotypes", "trees"), floor=1):
+    """Every walk over a node's sample list visits left_sample[u] .. right_sample[u] inclusive."""
+    ctx.rule(rule, "every loop that advances `i = next_sample[i]` starts from left_sample[u] behind a TSK_NULL test, stops with "
+                   "`if (i == right_sample[u]) break` (or a local holding right_sample[u]) and places that stop test after every "
+                   "other use of i in the loop body and before the advance: the last sample of the list is processed and the "
+                   "walk never runs past the node's own segment of the list")
+    n = 0
+    for key in tus:
+        tu = P.tus[key]
+        for fn in tu.funcs.values():
+            src = tu.src(fn.body) if fn.body is not None else ""
+            if "next_sample" not in src:
+                continue
+            nxt = _array_aliases(fn, "next_sample")
+            lft = _array_aliases(fn, "left_sample")
+            rgt = _array_aliases(fn, "right_sample")
+            F = Facts(P, fn)
+            loops = [x for x in walk(fn.body) if x.k in ("WhileStmt", "ForStmt", "DoStmt")]
+            k = 0
+            for adv in walk(fn.body):
+                if not (adv.k == "BinaryOperator" and adv.op == "="):
+                    continue
+                r = strip(adv.kids[1])
+                if r is None or r.k != "ArraySubscriptExpr" or estr(r.kids[0]) not in nxt:
+                    continue
+                var = estr(adv.kids[0])
+                if estr(r.kids[1]) != var:
+                    continue
+                inner = [lp for lp in loops if lp.b <= adv.b and adv.e <= lp.e]
+                if not inner:
+                    continue
+                lp = max(inner, key=lambda q: q.b)
+                body = lp.kids[-1] if lp.k != "DoStmt" else lp.kids[0]
+                # stop locals: s = right_sample[..]
+                stops = set()
+                for x in walk(fn.body):
+                    if x.k == "BinaryOperator" and x.op == "=":
+                        rr = strip(x.kids[1])
+                        if rr is not None and rr.k == "ArraySubscriptExpr" and estr(rr.kids[0]) in rgt:
+                            stops.add(estr(x.kids[0]))
+                stop_if = None
+                for x in walk(body):
+                    if x.k == "IfStmt":
+                        c = strip(x.kids[0])
+                        if c is not None and c.k == "BinaryOperator" and c.op == "==":
+                            a, b = estr(c.kids[0]), estr(c.kids[1])
+                            other = b if a == var else a if b == var else None
+                            if other is None:
+                                continue
+                            o = strip(c.kids[1] if a == var else c.kids[0])
+                            is_right = other in stops or (o is not None and o.k == "ArraySubscriptExpr" and estr(o.kids[0]) in rgt)
+                            then = x.kids[1]
+                            has_break = then is not None and any(y.k == "BreakStmt" for y in walk(then))
+                            if is_right and has_break:
+                                stop_if = x
+                key_ = "%s|%s@%d" % (fn.name, var, k)
+                k += 1
+                n += 1
+                where = tu.loc(adv)
+                if stop_if is None:
+                    ctx.ob(rule, key_, False, where, "no `if (%s == right_sample[..]) break` in the loop that advances %s" % (var, var))
+                    continue
+                if not (stop_if.e <= adv.b):
+                    ctx.ob(rule, key_, False, where, "the stop test comes after the advance `%s`" % estr(adv))
+                    continue
+                # every other use of var inside the loop body precedes the stop test
+                late = None
+                for x in walk(body):
+                    if x.k == "DeclRefExpr" and x.ref == var and x.b >= stop_if.e and not (adv.b <= x.b and x.e <= adv.e):
+                        late = x
+                        break
+                if late is not None:
+                    ctx.ob(rule, key_, False, tu.loc(late), "`%s` is used after the stop test: the last sample of the list is not processed" % var)
+                    continue
+                # start: var = left_sample[..] and a NULL test
+                inits = []
+                for x in walk(fn.body):
+                    if x.k == "BinaryOperator" and x.op == "=" and estr(x.kids[0]) == var and x is not adv:
+                        inits.append(x)
+                    elif x.k == "VarDecl" and x.name == var and x.kids:
+                        inits.append(x)
+                def from_left(x):
+                    rr = strip(x.kids[-1])
+                    return rr is not None and rr.k == "ArraySubscriptExpr" and estr(rr.kids[0]) in lft
+                bad_init = [x for x in inits if not from_left(x)]
+                if bad_init or not inits:
+                    ctx.ob(rule, key_, False, tu.loc(bad_init[0]) if bad_init else where,
+                           "%s is not initialised from left_sample[..]" % var)
+                    continue
+                cond = estr(lp.kids[0]) if lp.k == "WhileStmt" else ""
+                null_ok = re.search(r"%s != (TSK_NULL|-1)" % re.escape(var), cond) is not None
+                if not null_ok:
+                    for i, br in F.enclosing_ifs(lp):
+                        if re.search(r"%s != (TSK_NULL|-1)" % re.escape(var), estr(i.kids[0])) and br:
+                            null_ok = True
+                if not null_ok:
+                    for x in walk(fn.body):
+                        if (x.k == "IfStmt" and x.b < lp.b and re.search(r"%s == (TSK_NULL|-1)" % re.escape(var), estr(x.kids[0]))
+                                and any(y.k in ("GotoStmt", "ReturnStmt", "ContinueStmt", "BreakStmt") for y in walk(x.kids[1]))):
+                            null_ok = True      # reject-and-leave form
+                if not null_ok:
+                    ctx.ob(rule, key_, False, where, "no `%s != TSK_NULL` test before the walk (a node with no samples has left_sample == TSK_NULL)" % var)
+                    continue
+                ctx.ob(rule, key_, True, where, "walk over %s: left .. right inclusive, NULL-guarded" % var)
+    ctx.floor(rule, floor)
+    return n
